@@ -826,7 +826,11 @@ func genC07(c *c07Case, r *rand.Rand) {
 		c.GroupCols = pick(r, [][]string{{"k", "g"}, {"g", "k"}})
 	}
 	wantHaving, wantOrder, wantLimit := false, false, false
-	if c.Mode == "counting" {
+	if c.Mode == "counting" && r.Intn(6) == 0 {
+		// the same per-key batches of N rows, formed by GLOBAL WINDOW TRIGGER WHEN count(*) >= N; only the
+		// SELECT items are exercised there
+		c.Global = true
+	} else if c.Mode == "counting" {
 		wantHaving = r.Intn(2) == 0
 		if r.Intn(10) == 0 {
 			wantOrder, wantLimit, c.Distinct = r.Intn(2) == 0, r.Intn(2) == 0, r.Intn(3) == 0
@@ -944,7 +948,9 @@ func genC07(c *c07Case, r *rand.Rand) {
 		kw = "SELECT DISTINCT "
 	}
 	sql := kw + strings.Join(sel, ", ") + " FROM stream GROUP BY " + strings.Join(c.GroupCols, ", ")
-	if c.Mode == "counting" {
+	if c.Global {
+		sql += fmt.Sprintf(", GLOBAL WINDOW TRIGGER WHEN count(*) >= %d", c.N)
+	} else if c.Mode == "counting" {
 		sql += fmt.Sprintf(", CountingWindow(%d)", c.N)
 	} else {
 		sql += ", TumblingWindow('1s')"
